@@ -226,6 +226,7 @@ func checkDefs() map[string]CheckDef {
 		Obligations: []Obligation{
 			{Pkg: "internal/verifh/c08", Harness: "VerifC08Validation", TV: 10},
 			{Pkg: "internal/verifh/c08", Harness: "VerifC08Agreement", Quick: map[string]int{"c08full": 0}, Thor: map[string]int{"c08full": 1}, TV: 6},
+			{Pkg: "internal/verifh/c08", Harness: "VerifC08ProposalDuringUpdate", TV: 6, Note: "sub-channel / virtual channel proposal arriving while an update of the parent is in flight: judged against the parent state after the update"},
 			{Pkg: "internal/verifh/c08", Harness: "VerifC08Opening", TV: 6, Note: "the whole two-party opening protocol between two real clients, deterministic schedule"},
 			{Pkg: "internal/verifh/c08", Harness: "VerifC08Opening", Sched: true, Quick: map[string]int{"P": 0, "D": 1, "race": 1}, Thor: map[string]int{"D": 2}, Note: "delay-bounded schedule exploration (every Publish is a schedule point), happens-before race detection"},
 		},
